@@ -446,6 +446,16 @@ def run_impl(case):
         fsteps = []
         for op in case["ops"]:
             r = _apply(builder, op, objs)
+            # an element that is in the builder keeps its mode whatever is done to it afterwards: give every optional
+            # single-valued argument just added a (list) default - the builder's bookkeeping must not go stale
+            for e in ([op["e"]] if "e" in op else op.get("es", [])):
+                if isinstance(e, dict) and e.get("k") == "arg":
+                    o = objs.get(e)
+                    try:
+                        if not o.is_required() and not o.is_multi_valued():
+                            o.set_default(["poked"])
+                    except Exception:  # noqa: BLE001
+                        pass
             d = {"out": "ok" if r[0] == "ok" else r[1]}
             d.update(_both(builder, objs))
             steps.append(d)
